@@ -263,8 +263,9 @@ def _pad_ok(world, o, obs, r, p, final=False, strict=True):
     covered = any(off <= r and r + p <= off + size for (b, off, size, kind) in o.blocks)
     if not covered:
         return False
-    if strict and not any(off == r and size == p for (b, off, size, kind) in o.blocks):
-        # the library covers padding with a block of its own
+    if strict and not any(off == r and size == p and obs.align.get(b.uuid, 1) <= 1 for (b, off, size, kind) in o.blocks):
+        # the library covers padding with a fresh block of its own (which
+        # carries no alignment requirement itself)
         return False
     if final:
         # padding at the very end of an interval: uninitialized bytes that
